@@ -976,6 +976,12 @@ example :
     GapicModel.Model.AddressT.rel branch tree = "Branch".toList ∧
     GapicModel.Model.AddressT.rel other tree = "leaf.Leaf".toList := by decide
 
+/-- the hand-written `fieldAttr` of the C02 model IS the translation of `Field.name` as it stands in /repo -/
+theorem fieldAttr_is_translated (pp : Bool) (n : List Char) :
+    GapicModel.Model.Types.fieldAttr pp n = GapicModel.Pinned.Funcs.field_name n pp := by
+  unfold GapicModel.Model.Types.fieldAttr GapicModel.Pinned.Funcs.field_name GapicModel.Model.Types.reserved
+  simp only [GapicModel.PyRt.strIn, List.contains_iff_mem, Bool.and_eq_true, decide_eq_true_eq]
+
 end TranslatedRel
 
 end GapicModel.Props.C02
